@@ -19,7 +19,7 @@ import torch
 import inferno
 from inferno.neural import DeltaCurrent, DeltaPlusCurrent, SingleExponentialCurrent, DoubleExponentialCurrent
 
-from mc.common import Tally
+from mc.common import Tally, Guard
 from mc.pool import run_shards
 
 ID = "C04"
@@ -194,8 +194,11 @@ def shard(cname, dt, delayk, mode, tol_k, ob_kind, B, T):
             ref.step(spikes, inj)
             x = torch.tensor(spikes, dtype=torch.bool)
             for i, syn in enumerate(syns):
-                args = (x,) if inj is None else (x, torch.full((B, 2), inj))
+                args = (x.clone(),) if inj is None else (x.clone(), torch.full((B, 2), inj))
+                g = Guard(*args)
                 outs[i] = syn(*args)
+                # inputs come back untouched and are not aliased by the spike / current history (overwritten before any read)
+                g.release(tally, f"input-mutated:{cname}:{'inplace' if i else 'outofplace'}", {**cfg, "history": hist, "step": t})
         t = len(hist) - 1
         case = {**cfg, "history": hist}
         ok = True
